@@ -1,4 +1,5 @@
 import Proofs.Chain
+import Proofs.Process
 import Pegnet.Generated.Facts
 /-
   C15 — Scheduled issuance: developer rewards and one-time ledger adjustments.
@@ -87,6 +88,32 @@ theorem new_burn_zeroing_complete :
      | .ok _ s => (s.bal "burn" 1, s.bal "burn" 2)
      | .fail _ _ => (-1, -1)) = (0, 0) := by decide
 
+/-- **Each one-time adjustment occurs at most once, along every run.** The adjustments are tied to
+    their heights (`mint_only_at_activation`, `burn_zeroing_only_at_activation`: at any other height
+    the step is the identity), and along every run of the daemon — whatever the blocks contain,
+    however often it is killed, fails or is restarted — every height is committed at most once:
+    the version table never holds two rows of one height. A failed attempt at the height rolls the
+    adjustment back with the rest of the block. -/
+theorem each_height_committed_at_most_once (P : Params) (ch : Nat → Block) (hch : ∀ h, (ch h).height = h)
+    (es : List Ev) (h : Nat) :
+    (((runEvs P ch (freshNode P) es).db.syncVersions.map (·.1)).count h) ≤ 1 := by
+  have hin := runEvs_inOrder P ch hch (freshNode P).mem es (freshNode P) (inOrder_fresh P)
+  exact List.nodup_iff_count.1 hin.nodup h
+
+/-- …and none is skipped: when the run has passed an adjustment height, that height has been
+    committed (heights are applied in order, without gaps) -/
+theorem passed_height_was_committed (P : Params) (ch : Nat → Block) (hch : ∀ h, (ch h).height = h)
+    (es : List Ev) (h : Nat) (hlo : P.act.pegnet < h) (hhi : h ≤ (runEvs P ch (freshNode P) es).mem) :
+    h ∈ (runEvs P ch (freshNode P) es).db.syncVersions.map (·.1) := by
+  have hin := runEvs_inOrder P ch hch (freshNode P).mem es (freshNode P) (inOrder_fresh P)
+  have hmem : h ∈ heightsAbove (freshNode P).mem (runEvs P ch (freshNode P) es).db.syncVersions := by
+    rw [hin.rows, List.mem_range'_1]
+    have : (freshNode P).mem = P.act.pegnet := rfl
+    omega
+  unfold heightsAbove at hmem
+  obtain ⟨r, hr, hrh⟩ := List.mem_map.1 hmem
+  exact List.mem_map.2 ⟨r, (List.mem_filter.1 hr).1, hrh⟩
+
 end Pegnet.C15
 
 #print axioms Pegnet.C15.dev_table_total
@@ -99,3 +126,5 @@ end Pegnet.C15
 #print axioms Pegnet.C15.mainnet_activation_order
 #print axioms Pegnet.C15.old_burn_zeroing_incomplete
 #print axioms Pegnet.C15.new_burn_zeroing_complete
+#print axioms Pegnet.C15.each_height_committed_at_most_once
+#print axioms Pegnet.C15.passed_height_was_committed
